@@ -7,11 +7,12 @@ CONSTANTS NRows = 2
  tRCD = 2
  tWTP = 3
  tRC = 4
- tRAS = 1
+ tRAS = 2
  CntBitsWTP = 2
  CntBitsRC = 3
  CntBitsRAS = 2
  AutoPre = TRUE
+ RefWaitsTras = FALSE
  tRFC = 2
  WL = 1
  BLCK = 1
